@@ -403,10 +403,14 @@ def model_save_quantized_weights(model, filename=None, custom_objects={}):
             pool_area = np.prod(layer.pool_size)
         else:
           pool_area = layer.compute_pooling_area(input_shape=layer.input_shape)
-        saved_weights[
-            layer.name]["q_mult_factor"] = layer.average_quantizer_internal(
-                1.0 / pool_area).numpy()
-        saved_weights[layer.name]["mult_factor"] = 1.0 / pool_area
+        mult_factor = 1.0 / pool_area
+        if layer.average_quantizer_internal is not None:
+          q_mult_factor = layer.average_quantizer_internal(mult_factor).numpy()
+        else:
+          # Without average quantizer the layer averages with the plain factor.
+          q_mult_factor = mult_factor
+        saved_weights[layer.name]["q_mult_factor"] = q_mult_factor
+        saved_weights[layer.name]["mult_factor"] = mult_factor
         saved_weights[layer.name]["pool_area"] = pool_area
 
       if has_sign:
